@@ -62,8 +62,10 @@ func EqualsIgnoreCase(str1, str2 string) bool {
 }
 
 // HasPrefixIgnoreCase checks if str is stared with prefix in case-insensitive mode.
+// The first len(prefix) bytes of str are what matches the prefix, so it's safe for
+// caller to slice str at len(prefix) (lower-casing can change the length of a string).
 func HasPrefixIgnoreCase(str, prefix string) bool {
-	return strings.HasPrefix(strings.ToLower(str), strings.ToLower(prefix))
+	return len(str) >= len(prefix) && strings.EqualFold(str[:len(prefix)], prefix)
 }
 
 // CharCount returns number of char in str.
